@@ -1,0 +1,57 @@
+//! Verification hooks (feature `verif-hooks`, off by default, add-only).
+//!
+//! Read access to the registration manager's private state so an external
+//! harness can compare it with a model after every event. No production code
+//! path calls anything in here.
+
+use super::SrtlaRegistrationManager;
+use super::probing::ProbingState;
+
+/// Plain copy of the manager's private state.
+#[derive(Debug, Clone, PartialEq, Eq)]
+pub struct VerifRegState {
+    pub pending_reg2_idx: Option<usize>,
+    pub pending_timeout_at_ms: u64,
+    pub active_connections: usize,
+    pub has_connected: bool,
+    pub broadcast_reg2_pending: bool,
+    pub reg1_target_idx: Option<usize>,
+    pub reg1_next_send_at_ms: u64,
+    /// 0 = NotStarted, 1 = Probing, 2 = WaitingForProbes, 3 = Complete.
+    pub probing_state: u8,
+    /// `(conn_idx, probe_sent_ms, rtt_ms)` per probe result.
+    pub probe_results: Vec<(usize, u64, Option<u64>)>,
+}
+
+impl SrtlaRegistrationManager {
+    pub fn verif_state(&self) -> VerifRegState {
+        VerifRegState {
+            pending_reg2_idx: self.pending_reg2_idx,
+            pending_timeout_at_ms: self.pending_timeout_at_ms,
+            active_connections: self.active_connections,
+            has_connected: self.has_connected,
+            broadcast_reg2_pending: self.broadcast_reg2_pending,
+            reg1_target_idx: self.reg1_target_idx,
+            reg1_next_send_at_ms: self.reg1_next_send_at_ms,
+            probing_state: match self.probing_state {
+                ProbingState::NotStarted => 0,
+                ProbingState::Probing => 1,
+                ProbingState::WaitingForProbes => 2,
+                ProbingState::Complete => 3,
+            },
+            probe_results: self
+                .probe_results
+                .iter()
+                .map(|r| (r.conn_idx, r.probe_sent_ms, r.rtt_ms))
+                .collect(),
+        }
+    }
+
+    pub fn verif_set_active_connections(&mut self, n: usize) {
+        self.active_connections = n;
+    }
+
+    pub fn verif_probe_id(&self) -> [u8; srtla_protocol::SRTLA_ID_LEN] {
+        self.probe_id
+    }
+}
